@@ -75,7 +75,7 @@ def handle : List String → Option String
         some s!"decode=ok | ops={ops.length} stops={st.stops} endstop={boolStr st.endsWithStop} trailing={st.trailing} | infos-mismatch {infos.length}"
       else
         let b := checkBounds env ops infos
-        let t := execTagged env init ops infos
+        let t := execTagged env init ops infos ++ constSourceProblems env ops infos
         some s!"decode=ok | ops={ops.length} stops={st.stops} endstop={boolStr st.endsWithStop} trailing={st.trailing} | bounds={b.length} {firstFew b} | tagged={t.length} {firstFew t}"
   | ["fastextent", ext, cache] => do
     -- C02, Dedicated-SRAM clause: published fast-scratch extent never exceeds the arena cache size
